@@ -33,8 +33,10 @@ use std::time::{Duration, Instant};
 thread_local! {
     static FWORLD: RefCell<Option<J>> = const { RefCell::new(None) };
 }
-const WORLD_FILE: &str = "/verif/work/C19/front_world.json";
-const CLI_DIR: &str = "/verif/work/C19/cli";
+/// scratch directory of the family: the world file written by the setup hook, and cli/ for the CLI's input files
+fn front_work() -> PathBuf {
+    PathBuf::from(std::env::var("CEDAR_FRONT_WORK").unwrap_or_else(|_| "/verif/work/C19".to_string()))
+}
 
 // ---------------------------------------------------------------- small helpers
 fn us(j: &J, what: &str) -> R<usize> {
@@ -765,7 +767,7 @@ fn cli_binary() -> R<String> {
     std::env::var("CEDAR_CLI").map_err(|_| "CEDAR_CLI is not set (path of the built `cedar` binary)".to_string())
 }
 fn fresh_dir(tag: &str) -> R<PathBuf> {
-    let d = Path::new(CLI_DIR).join(format!("{}_{}", std::process::id(), tag));
+    let d = front_work().join("cli").join(format!("{}_{}", std::process::id(), tag));
     let _ = std::fs::remove_dir_all(&d);
     std::fs::create_dir_all(&d).map_err(|e| format!("mkdir {}: {e}", d.display()))?;
     Ok(d)
@@ -1039,7 +1041,7 @@ fn op_cli_translate_policy(world: &J, op: &J, tag: &str) -> R<J> {
     let mut ev = json!({});
     let out;
     if dir_s == "cedar-to-json" {
-        let text = src_text(src, shape == "map" || shape == "links")?;
+        let text = src_text(src, false)?;
         let f = put(&dir, "policies.cedar", &text)?;
         out = cli_run(&["translate-policy".to_string(), "--direction".to_string(), dir_s.to_string(), "--policies".to_string(), f])?;
         // the printed policy set: each static policy / template in Est.tla's spelling
@@ -1153,11 +1155,17 @@ fn op_cli_link(world: &J, op: &J, tag: &str) -> R<J> {
         a.insert(format!("?{s}"), json!(if *s == "principal" { "User::\"u2\"" } else { "Doc::\"d\"" }));
     }
     args.extend(["--template-id".to_string(), tid.to_string(), "--new-id".to_string(), nid.to_string(), "--arguments".to_string(), J::Object(a).to_string()]);
+    let read_links = |d: &Path| -> Vec<J> {
+        std::fs::read_to_string(d.join("links.json")).ok().and_then(|s| serde_json::from_str::<J>(&s).ok()).and_then(|j| j.as_array().cloned()).unwrap_or_default()
+    };
+    let before = read_links(&dir);
     let out = cli_run(&args)?;
-    let links_after = std::fs::read_to_string(dir.join("links.json")).ok().and_then(|s| serde_json::from_str::<J>(&s).ok());
+    let after = read_links(&dir);
     let _ = std::fs::remove_dir_all(&dir);
-    let recorded = links_after.as_ref().and_then(|l| l.as_array()).map(|a| a.iter().any(|x| x["link_id"] == nid && x["template_id"] == tid)).unwrap_or(false);
-    Ok(json!({"cli": {"exit": out.exit, "how": out.note, "added": out.stdout.contains("Template-linked policy added:"), "recorded": recorded},
+    // the links file keeps its entries and gains exactly the new link as its last entry
+    let kept = after.len() >= before.len() && after[..before.len()] == before[..];
+    let recorded = after.len() == before.len() + 1 && after.last().map(|x| x["link_id"] == nid && x["template_id"] == tid).unwrap_or(false);
+    Ok(json!({"cli": {"exit": out.exit, "how": out.note, "added": out.stdout.contains("Template-linked policy added:"), "recorded": recorded, "kept": kept},
               "out": tail(&out.stdout), "err": tail(&out.stderr)}))
 }
 
@@ -1172,7 +1180,8 @@ fn prepare_world(mut w: J) -> J {
 fn with_world<T>(f: impl FnOnce(&J) -> R<T>) -> R<T> {
     FWORLD.with(|cell| {
         if cell.borrow().is_none() {
-            let s = std::fs::read_to_string(WORLD_FILE).map_err(|e| format!("no setup case and no {WORLD_FILE}: {e}"))?;
+            let wf = front_work().join("front_world.json");
+            let s = std::fs::read_to_string(&wf).map_err(|e| format!("no setup case and no {}: {e}", wf.display()))?;
             let w: J = serde_json::from_str(&s).map_err(|e| e.to_string())?;
             *cell.borrow_mut() = Some(prepare_world(w));
         }
